@@ -1,6 +1,6 @@
 (* C09 — Attribute values resolve by MJML precedence, independent of source. *)
-From Coq Require Import List String Bool NArith.
-From GV Require Attr.Store.
+From Coq Require Import List String Ascii Bool NArith.
+From GV Require Attr.Store Attr.Color.
 From GV Require Import Attr.Resolve Facts.Accessors Facts.KnownBad.
 Import ListNotations.
 Open Scope string_scope.
@@ -31,6 +31,23 @@ Section C09.
     spec norm s a = v /\ acc norm Attr.Resolve.NodeOnly s a = "".
   Proof. exact (nodeonly_ignores_class norm norm_empty). Qed.
 End C09.
+
+(* the same two theorems for the normalisation the code really applies (Attr/Color.v: #rgb -> #rrggbb for
+   attributes whose name contains "color", tied to normalizeAttributeValue on every run): no hypotheses left *)
+Theorem C09_resolver_is_precedence_concrete : forall s a, no_empty_tagdef s ->
+  acc Attr.Color.norm Attr.Resolve.Full s a = spec Attr.Color.norm s a.
+Proof. exact (C09_resolver_is_precedence Attr.Color.norm Attr.Color.norm_empty Attr.Color.norm_nonempty). Qed.
+Theorem C09_moving_sources_concrete : forall s s' a, no_empty_tagdef s -> no_empty_tagdef s' ->
+  spec Attr.Color.norm s a = spec Attr.Color.norm s' a ->
+  forall k, k = Attr.Resolve.Full \/ k = Attr.Resolve.Fast -> acc Attr.Color.norm k s a = acc Attr.Color.norm k s' a.
+Proof. exact (C09_moving_sources Attr.Color.norm Attr.Color.norm_empty Attr.Color.norm_nonempty). Qed.
+(* the normalisation itself: idempotent, never produces or removes the empty value, doubles each digit of #rgb *)
+Theorem C09_normalisation_idempotent : forall a v, Attr.Color.norm a (Attr.Color.norm a v) = Attr.Color.norm a v.
+Proof. exact Attr.Color.norm_idem. Qed.
+Theorem C09_normalisation_expands_short_hex : forall r g b, Attr.Color.is_hex r = true -> Attr.Color.is_hex g = true -> Attr.Color.is_hex b = true ->
+  Attr.Color.norm "background-color" (String "#"%char (String r (String g (String b ""))))
+  = String "#"%char (String r (String r (String g (String g (String b (String b "")))))).
+Proof. exact Attr.Color.norm_expands. Qed.
 
 (* recomputed on every run over the accessor call sites extracted from the source: every read of a
    (component, attribute) through a bypassing accessor concerns a cell that is listed (known
@@ -90,3 +107,5 @@ Print Assumptions C09_bypass_cells_listed.
 Print Assumptions C09_tag_default_is_last_definition.
 Print Assumptions C09_class_definition_is_last_definition.
 Print Assumptions C09_later_class_wins.
+Print Assumptions C09_resolver_is_precedence_concrete.
+Print Assumptions C09_moving_sources_concrete.
